@@ -25,16 +25,19 @@ Fixpoint bytes_of (s : string) : list N :=
   end.
 
 Definition o0 : orc :=
-  {| o_open := OpenErr; o_stream := StreamErr; o_search_ok := false; o_nmsgs := 0; o_json := JBad; o_fs_ok := false |}.
+  {| o_open := OpenErr; o_archive := false; o_nfiles := 1; o_stream := StreamErr; o_search_ok := false; o_nmsgs := 0; o_json := JBad; o_fs_ok := false |}.
 Definition oo (r : open_res) : orc :=
-  {| o_open := r; o_stream := StreamErr; o_search_ok := false; o_nmsgs := 0; o_json := JBad; o_fs_ok := false |}.
+  {| o_open := r; o_archive := false; o_nfiles := 1; o_stream := StreamErr; o_search_ok := false; o_nmsgs := 0; o_json := JBad; o_fs_ok := false |}.
+(* open with the number of files taken / the archive path *)
+Definition oof (r : open_res) (archive : bool) (nfiles : N) : orc :=
+  {| o_open := r; o_archive := archive; o_nfiles := nfiles; o_stream := StreamErr; o_search_ok := false; o_nmsgs := 0; o_json := JBad; o_fs_ok := false |}.
 Definition os (r : stream_res) : orc :=
-  {| o_open := OpenErr; o_stream := r; o_search_ok := false; o_nmsgs := 0; o_json := JBad; o_fs_ok := false |}.
+  {| o_open := OpenErr; o_archive := false; o_nfiles := 1; o_stream := r; o_search_ok := false; o_nmsgs := 0; o_json := JBad; o_fs_ok := false |}.
 (* id commands: search body ok?, number of collected messages *)
 Definition oi (search_ok : bool) (nmsgs : N) : orc :=
-  {| o_open := OpenErr; o_stream := StreamErr; o_search_ok := search_ok; o_nmsgs := nmsgs; o_json := JBad; o_fs_ok := false |}.
+  {| o_open := OpenErr; o_archive := false; o_nfiles := 1; o_stream := StreamErr; o_search_ok := search_ok; o_nmsgs := nmsgs; o_json := JBad; o_fs_ok := false |}.
 Definition oj (j : json_shape) (fs_ok : bool) : orc :=
-  {| o_open := OpenErr; o_stream := StreamErr; o_search_ok := false; o_nmsgs := 0; o_json := j; o_fs_ok := fs_ok |}.
+  {| o_open := OpenErr; o_archive := false; o_nfiles := 1; o_stream := StreamErr; o_search_ok := false; o_nmsgs := 0; o_json := j; o_fs_ok := fs_ok |}.
 Definition it (pre : list tevent) (frame : string) (o : orc) : titem :=
   {| t_pre := pre; t_frame := frame; t_orc := o |}.
 (* filter classes of the harness templates: 1 = every message matches, 2 = no message matches *)
@@ -57,7 +60,7 @@ Definition o_ok (k : ok_kind) : otree :=
   end.
 Definition o_err (k : err_kind) : otree :=
   match k with
-  | EOpenAlready => T [L 1; L 0; T []]
+  | EOpenAlready n => T [L 1; L 0; T [L n]]
   | EOpenFailed => T [L 1; L 1; T []]
   | ENoFileOpenFirst => T [L 1; L 2; T []]
   | EOnePassOnly => T [L 1; L 3; T []]
